@@ -1,13 +1,35 @@
 /-
-  Hg.Props.C02 — fill computes a function of the weighted multiset of data: order independence and
-  the weight gate.  (The closed-form specification of every node's value is checked against the
-  implementation by the independent exact-rational reference evaluator of the harness; the theorems
-  here are the order- and gate-related consequences, proved for all trees and streams.)
+  Hg.Props.C02 — fill computes the specified function of the weighted multiset of data.
+  `denote` (Hg.Model.Denote) is the specification: closed forms over the multiset of (datum, weight)
+  pairs with weight > 0 — sum of weights, weighted sum, weighted mean and variance with the
+  special-value table, extrema ignoring NaN, value-to-weight map, and for containers the sub-multiset
+  `route` assigns to each child — written without reference to `fill`.  `fillAll_eq_denote` states
+  that every stream of fills produces exactly that aggregate; order independence and the weight gate
+  are consequences.  `denote` itself is compared with the implementation on every run of the check
+  (driver op `denote`), next to the independent exact-rational reference evaluator of the harness.
 -/
 import Hg.Proofs.TreeLaws3
+import Hg.Proofs.DenoteLaws
 import Hg.Props.Examples
 
 namespace Hg.C02
+
+/-- **fill computes the specification**: for every empty live tree (all 19 primitives, any nesting) and
+every stream that is a good run (no quantity raises, every weight finite or gated out), filling the
+stream record by record yields `denote z s`. -/
+theorem fillAll_eq_denote (z : Agg) (s : List (Datum × Val))
+    (hz : isZeroTree z = true) (ht : hasTmpl z = true) (hn : noBins z = true)
+    (hrun : goodRun z s = true) :
+    fillAll z s = denote z s :=
+  Hg.fillAll_eq_denote z s hz ht hn hrun
+
+/-- the specification depends on the multiset only (no hypothesis needed) -/
+theorem denote_perm (z : Agg) (s s' : List (Datum × Val)) (hp : s.Perm s') : denote z s' = denote z s :=
+  Hg.Den.denote_perm' z s s' hp
+
+/-- records that do not pass the weight gate do not matter to the specification -/
+theorem denote_gated (z : Agg) (s : List (Datum × Val)) : denote z (gated s) = denote z s :=
+  Hg.denote_gated z s
 
 /-- A fill whose weight is `<= 0` or NaN changes nothing (and does not raise), whatever the tree and
 the datum. -/
@@ -53,6 +75,8 @@ open Hg.Ex in
 example : isZeroTree z = true ∧ hasTmpl z = true ∧ noBins z = true := by decide +kernel
 open Hg.Ex in
 #guard good z && (s1 ++ s2).all (fun dw => goodRun z [dw]) && decide (fillAll z (s2 ++ s1) = fillAll z (s1 ++ s2))
+open Hg.Ex in
+#guard decide (fillAll z (s1 ++ s2) = denote z (s1 ++ s2)) && goodRun z (s1 ++ s2)
 example : (Val.nan).pos = false ∧ (Val.fin 0).pos = false ∧ (Val.fin (-1)).pos = false := by decide +kernel
 
 end Hg.C02
